@@ -218,6 +218,12 @@ def c11_schema(dep: int) -> bool:
     sh = shard()
     dep = pick(dep, 4)
     variables = [{}, {"d": None}, {"d": True}, {"d": False}][dep]
+    # another engine of the process, whose schema declares same-named types (Query, A, B, Node, Color...) differently, is introspected first with the same
+    # variables: what one schema answered must not show in the answer of another
+    other = ("M1", "str") if sh["m"] not in ("M1",) else ("M5", "str")
+    safe(lambda: full(other[0], other[1], dict(variables)))
+    other2 = ("M2", "file") if not sh["m"].startswith("M2") else ("M7", "str")
+    safe(lambda: full(other2[0], other2[1], dict(variables)))
     ok, r = safe(lambda: full(sh["m"], sh["mode"], dict(variables)))
     if not ok or r.get("errors") or not r.get("data"):
         observe(r)
